@@ -54,7 +54,42 @@ def occurs(seq, rate, indels, read, prefix):
     return best
 
 
+def gen_many_set(rng):
+    """A demultiplexing-sized set: 48-100 equally long barcodes, a third of them one or two substitutions away from another."""
+    prefix = rng.random() < 0.5
+    L = rng.choice([8, 8, 9, 10])
+    n = rng.randint(48, 100)
+    seqs = []
+    while len(seqs) < n:
+        if seqs and rng.random() < 0.3:
+            sl = list(rng.choice(seqs))
+            for _ in range(rng.choice([1, 2])):
+                sl[rng.randrange(L)] = rng.choice("ACGT")
+            s = "".join(sl)
+        else:
+            s = rnd_seq(rng, L, "ACGT")
+        if s not in seqs:
+            seqs.append(s)
+    rate = rng.choice([1, 1, 0.125, 0.2, 2])
+    indels = rate != 2 and rng.random() < 0.25
+    return dict(prefix=prefix, specs=[dict(seq=s, max_errors=rate, indels=indels, name=f"a{i}") for i, s in enumerate(seqs)], many=True)
+
+
+def gen_many_read(rng, focus, prefix):
+    """Reads around a few of the barcodes, with one or two characters that are neither a base nor N at varying positions."""
+    a = rng.choice(focus)
+    rl = list(a.sequence)
+    if rng.random() < 0.3:
+        rl[rng.randrange(len(rl))] = rng.choice("ACGT")
+    for j in rng.sample(range(len(rl)), rng.choice([1, 1, 2])):
+        rl[j] = rng.choice("RYKMSW.NXr")
+    rest = rnd_seq(rng, rng.randint(0, 8), "ACGT")
+    return "".join(rl) + rest if prefix else rest + "".join(rl)
+
+
 def gen_set(rng):
+    if rng.random() < 0.035:
+        return gen_many_set(rng)
     if rng.random() < 0.04:
         # absolute error numbers on the adapter lengths for which (k / length) * length falls just below k in double
         # arithmetic: index and one-by-one search must draw the same line (no indels: the spheres stay small)
@@ -148,11 +183,13 @@ def mt(m):
     return None if m is None else (m.adapter.name, m.astart, m.astop, m.rstart, m.rstop, m.errors)
 
 
-def check_one(ctx, setd, ads, idx, cutter_i, cutter_p, read, perm_indexes):
+def check_one(ctx, setd, ads, idx, cutter_i, cutter_p, read, perm_indexes, history=None):
     import cutadapt.adapters as A
 
     prefix = setd["prefix"]
     case = dict(set=setd, read=read)
+    if history is not None:
+        case["history"] = list(history)
     n = len(read)
     try:
         mi = idx.match_to(read)
@@ -256,7 +293,7 @@ def run_set(ctx, rng, setd):
         cutter_i = AdapterCutter(ads, index=True)
         cutter_p = AdapterCutter(ads, index=False)
         perm_indexes = []
-        for _ in range(2):
+        for _ in range(1 if setd.get("many") else 2):
             perm = ads[:]
             rng.shuffle(perm)
             perm_indexes.append(A.IndexedPrefixAdapters(perm) if prefix else A.IndexedSuffixAdapters(perm))
@@ -266,11 +303,35 @@ def run_set(ctx, rng, setd):
     ctx.count("sets")
     if len({len(a.sequence) for a in ads}) > 1:
         ctx.count("sets_mixed_lengths")
-    for _ in range(12):
-        read = gen_read(rng, ads, prefix)
-        check_one(ctx, setd, ads, idx, cutter_i, cutter_p, read, perm_indexes)
+    many = bool(setd.get("many"))
+    if many:
+        ctx.count("sets_with_48_or_more_adapters")
+        focus = rng.sample(ads, 3)
+        close = [b for b in ads if any(b is not a and R.hamming(a.sequence, b.sequence, plain_eq) <= 2 for a in focus)]
+        focus += close[:3]
+    history = []
+    for _ in range(40 if many else 12):
+        read = gen_many_read(rng, focus, prefix) if many and rng.random() < 0.75 else gen_read(rng, ads, prefix)
+        history.append(read)
+        check_one(ctx, setd, ads, idx, cutter_i, cutter_p, read, perm_indexes, history=history if many else None)
         if ctx.variant == "asan":
             ctx.san_check(lambda: dict(set=setd, read=read))
+    # what the index answers for a read must not depend on the reads it has seen before: a second index object gets the
+    # same reads in reversed order
+    if not many and rng.random() < 0.7:
+        return
+    try:
+        idx2 = A.IndexedPrefixAdapters(ads) if prefix else A.IndexedSuffixAdapters(ads)
+        for read in reversed(history):
+            m2 = mt(idx2.match_to(read))
+            m1 = mt(idx.match_to(read))
+            ctx.count("history_comparisons")
+            if m1 != m2:
+                ctx.violation("index-history-dependent", f"after the reads {history[:6]}... the index answers {m1} for {read!r}, an index that saw the reads in "
+                              f"reversed order answers {m2}; set={describe(ads)[:8]}...", dict(set=setd, read=read, history=list(history)), facts=dict(prefix=prefix))
+                break
+    except Exception as e:
+        ctx.violation("exception", f"index match_to raised {type(e).__name__}: {e}; set={describe(ads)[:8]}", dict(set=setd, read=None))
 
 
 def cli_case(ctx, k):
@@ -340,7 +401,10 @@ def run_shard(ctx):
         if ctx.out_of_time():
             ctx.count("stopped_on_time_budget")
             break
-        run_set(ctx, rng, gen_set(rng))
+        setd = gen_set(rng)
+        if setd.get("many") and ctx.variant != "plain" and ctx.tier == "quick":
+            continue    # pure-Python index code: nothing for the sanitizer to see that the small sets do not show
+        run_set(ctx, rng, setd)
 
 
 def replay(ctx, case):
@@ -357,6 +421,8 @@ def replay(ctx, case):
     idx = A.IndexedPrefixAdapters(ads) if prefix else A.IndexedSuffixAdapters(ads)
     perm = list(reversed(ads))
     pidx = A.IndexedPrefixAdapters(perm) if prefix else A.IndexedSuffixAdapters(perm)
+    for earlier in (case.get("history") or [])[:-1]:
+        idx.match_to(earlier)
     if case["read"] is not None:
         check_one(ctx, setd, ads, idx, AdapterCutter(ads, index=True), AdapterCutter(ads, index=False), case["read"], [pidx])
     ctx.san_check(case)
